@@ -359,7 +359,8 @@ def c17(tier):
     run.add_jobs(jobs_for(F.curated_items() + F.curated_retry() + F.fault_family(("undef",), ("when", "publish", "output")),
                           dict(env, max_nodes=sizes(tier, 1500, 8000)), s))
     # rerun requests probed in every state (accepted only when completed and for existing executions)
-    run.add_jobs(jobs_for(F.curated(), {"probe_rerun": True, "pause": 1, "cancel": 1, "max_nodes": sizes(tier, 1200, 6000)}, s))
+    run.add_jobs(jobs_for(F.curated() + F.curated_items()[:9] + F.curated_retry()[:4],
+                          {"probe_rerun": True, "pause": 1, "cancel": 1, "max_nodes": sizes(tier, 1200, 6000)}, s))
     if tier != "quick":
         run.add_jobs(jobs_for(F.curated(), dict(env, rerun=2, cancel=1), s))
     gs, skipped = G.rerun_groups(run.results, sizes(tier, 30, 300), random.Random(s))
@@ -466,6 +467,8 @@ def conform(tier):
                           {"pause": 1, "cancel": 1, "max_nodes": 800}, s, ("yaql", "jinja"), tok="visit"))
     run.add_jobs(jobs_for(F.with_e2(F.curated()[:10] + F.curated_items()[:11]),
                           {"pause": 1, "cancel": 1, "sample": 3, "max_nodes": 1500}, s))
+    run.add_jobs(jobs_for(F.curated() + F.curated_items()[:10] + F.curated_retry()[:6] + F.random_family(27 + s, n // 2, nmax=4, publish=True),
+                          {"rerun": 1, "rerun_tasks": "all", "rerun_multi": True, "probe_rerun": True, "max_nodes": 1500}, s))
     print("conformance: steps=%d divergences=%d" % (run.conform_nodes, run.divergences))
     rc = run.finish("model_checking", "every explored step compared with Spec B's transition function", ASSUME_COMMON)
     return 2 if run.divergences else (0 if rc in (0, 1) else rc)
